@@ -154,11 +154,11 @@ func c08Run(c *vcore.Ctx) *vcore.Violation {
 	switch what {
 	case "time_limit":
 		lim = runner.Limit{TimeLimit: 40 * time.Millisecond, MemoryLimit: bigLimit.MemoryLimit}
-		script = []string{"burn", "150", "exit", "0"}
+		script = append([]string{"burn", "150"}, overEnd(src)...)
 		wantS = runner.StatusTimeLimitExceeded
 	case "memory_limit":
 		lim = runner.Limit{TimeLimit: time.Hour, MemoryLimit: runner.Size(24 << 20)}
-		script = []string{"alloc", "64", "exit", "0"}
+		script = append([]string{"alloc", "64"}, overEnd(src)...)
 		wantS = runner.StatusMemoryLimitExceeded
 	case "fsize":
 		rl = []rlimit.RLimit{{Res: syscall.RLIMIT_FSIZE, Rlim: syscall.Rlimit{Cur: 8192, Max: 8192}}}
@@ -331,6 +331,18 @@ func runWithStdout(stdout *os.File, report *os.File, script []string) (runner.Re
 }
 
 var _ = io.Discard
+
+// overEnd: how a program that has used more than the runner's bound ends - cleanly, with an exit code, or by a
+// crash; the measurement is above the bound in every case, and that is what the statement makes the verdict of
+func overEnd(src *vcore.Source) []string {
+	switch src.Pick("over_end", "exit0", "exit0", "exit3", "crash") {
+	case "exit3":
+		return []string{"exit", "3"}
+	case "crash":
+		return []string{"segv"}
+	}
+	return []string{"exit", "0"}
+}
 
 func init() {
 	register(&vcore.Prop{
